@@ -28,7 +28,7 @@ impl Property for C16 {
     }
     fn rule(&self) -> &'static str {
         "2-6 commands (redo, redo-ifchange, redo-ood, redo-targets, redo-sources) started together or \
-         at drawn later steps on one project (sometimes two builders naming the same two targets in opposite order), including on a project with no .redo directory yet and on a built project from which generated files were removed; all \
+         at drawn later steps on one project (sometimes two builders naming the same two targets in opposite order; in a quarter of the scenarios half of the commands have REDO preset in their environment, as a Makefile exporting it does), including on a project with no .redo directory yet and on a built project from which generated files were removed; all \
          scripts succeed; every interleaving point of SQLite's own fcntl locks and writes is a \
          scheduling point and its busy handler runs on simulated time; oracle: every command terminates and exits 0, no \
          output mentions a busy/locked/missing-table/connect error, integrity_check is ok afterwards and \
@@ -117,6 +117,16 @@ impl Property for C16 {
             let mut c = Cmd::new(&["redo-ood"]);
             c.start_step = rng.range(0, 600);
             cmds.push(c);
+        }
+        if index % 4 == 2 {
+            // a caller whose environment already names the redo binary (a Makefile
+            // or CI job doing `export REDO=redo`) but is no sub-command of a
+            // running build: such commands still allocate a run id of their own
+            for c in cmds.iter_mut() {
+                if rng.chance(1, 2) {
+                    c.env.push(("REDO".into(), "redo".into()));
+                }
+            }
         }
         sc.history.push(Step::Cmds(cmds));
         Case {
